@@ -98,6 +98,8 @@ def generate(ctx):
         for kind in kinds + ['sw']:
             yield 'unit', {'kind': kind, 'impl': impl, 'seed': _seed(rng)}
     yield 'time_unit', {'seed': _seed(rng)}
+    for dt in ([0.015625, 0.01] if quick else [0.015625, 0.01, 0.3, 1.0 / 3, 7.25]):
+        yield 'fix_time_unit', {'dt': dt}
     # --- trajectories ---------------------------------------------------------------
     # filter stacks: names (default parameters of dyn.step_filters) or dicts with non-default parameters;
     # 'fix_time' = time_integration.maybe_fix_sim_time_roundoff as the last step filter; n0 = start time / dt
@@ -554,4 +556,34 @@ def r_time_unit(ctx, a):
             ctx.oracle('filters keep exact zeros outside the truncation', bool(np.all(np.asarray(y['u'])[..., ~np.asarray(g.mask)] == 0.0)), {'filter': nm})
 
 
-RUNNERS = {'toy': r_toy, 'scalar': r_scalar, 'pattern': r_pattern, 'traj': r_traj, 'unit': r_unit, 'time_unit': r_time_unit}
+def r_fix_time_unit(ctx, a):
+    """time_integration.maybe_fix_sim_time_roundoff on its own: clocks of either sign, dt of either sign"""
+    m = dyn.mods(); jnp = m['jnp']; ti = m['ti']
+    class S: pass
+    def fix(times, dt):
+        s = S(); s.sim_time = jnp.asarray(np.asarray(times, dtype=np.float64))
+        return np.asarray(ti.maybe_fix_sim_time_roundoff(s, dt).sim_time, dtype=np.float64)
+    ns = np.arange(-12, 13).astype(np.float64)
+    for dt in (a['dt'], -a['dt']):
+        for delta in (0.0, 1e-9, -1e-9, 3e-13, -3e-13):
+            times = ns * dt * (1 + delta) + delta * dt
+            out = fix(times, dt)
+            ctx.oracle('maybe_fix_sim_time_roundoff maps a time within rounding of n*dt to exactly n*dt (n of either sign)',
+                       bool(np.all(out == dt * ns)), {'dt': dt, 'delta': delta, 'n': ns[out != dt * ns], 'got/dt': (out / dt)[out != dt * ns]})
+            ctx.corr('maybe_fix_sim_time_roundoff vs model dt * round_half_even(t / dt)', out,
+                     ctx.model.call(6, [], [[dt], times.tolist()]), scale=13 * abs(dt))
+        # jnp.round is a rounding to nearest (hypothesis [nearest] of C11_fix_time_trajectory)
+        xs = np.concatenate([ns + d for d in (-0.49, -0.25, 0.0, 0.25, 0.49)])
+        want = np.concatenate([ns] * 5)
+        ctx.table_obligation('H_round_nearest: jnp.round(x) = n whenever |x - n| < 1/2 (n of either sign)',
+                             bool(np.all(np.asarray(jnp.round(jnp.asarray(xs))) == want)))
+    dt = a['dt']
+    if float(dt).hex().rstrip('0').endswith(('0x1.', 'p-6')) or dt == 2.0 ** round(np.log2(dt)):
+        ties = (ns + 0.5) * dt          # exact in binary: ties go to the even neighbour
+        ctx.corr('maybe_fix_sim_time_roundoff on exact ties vs round-half-even model', fix(ties, dt),
+                 ctx.model.call(6, [], [[dt], ties.tolist()]), scale=13 * abs(dt))
+    o = object()
+    ctx.oracle('maybe_fix_sim_time_roundoff returns objects without sim_time unchanged', ti.maybe_fix_sim_time_roundoff(o, dt) is o)
+
+
+RUNNERS = {'fix_time_unit': r_fix_time_unit, 'toy': r_toy, 'scalar': r_scalar, 'pattern': r_pattern, 'traj': r_traj, 'unit': r_unit, 'time_unit': r_time_unit}
